@@ -118,6 +118,14 @@ where T: Ring + Bridge, for<'x> &'x T: RingOps<T> {
                 pool_o[k] = exp;
             }
             (Some(_), Err(p)) => {
+                let opc = match op { Op::Add => 0u8, Op::Sub => 1, Op::Mul => 2, _ => 9 };
+                if T::bounded() && !plain_int && p.is_overflow() && T::in_min_exact_domain(opc, &pool_o[i], &pool_o[j]) == Some(true) {
+                    good = false;
+                    ctx.violation(&format!("C14/{tname}/{:?}/overflow-inside-exact-domain", op),
+                        &format!("{:?} (form {form}) overflowed although the result {} and every intermediate of the common-denominator (lcm) algorithm are representable", op, exp.show()),
+                        json!({"type": tname, "history": hist, "a": pool_o[i].show(), "b": pool_o[j].show()}));
+                    break
+                }
                 if T::bounded() && !plain_int && p.is_overflow() {
                     // intermediate overflow in a composite machine-integer type: outside the promise
                     ctx.inconclusive("intermediate_overflow_machine_int");
